@@ -84,7 +84,7 @@ Qed.
 
 Definition client6 (o : op6) : N :=
   match o with
-  | Solicit d _ _ _ | Request6 d _ _ _ | Renew d _ _ | Rebind d _ _ | Confirm d _ | Release6 d | Decline6 d => d
+  | Solicit d _ _ _ | Request6 d _ _ _ | Renew d _ _ | Rebind d _ _ | Confirm d _ | Release6 d | Decline6 d | InfoReq d => d
   | Advance6 _ => 0
   end.
 Definition na_of (r : reply6) : ia6 := match r with R6Adv na _ | R6Reply na _ _ => na | _ => IaNone end.
@@ -218,7 +218,7 @@ Proof.
     - pose proof (renew_pre_inv c s d l (now6 s + c_valid c) Hi El) as Hi1.
       apply (build_reply_spec _ _ _ _ _ _ _ _ _ Hi1 Hr).
     - inv Hr. apply Hnone; auto. }
-  destruct o as [d rapid na pd|d sid na pd|d na pd|d na pd|d addr|d|d|t]; cbn in Hs; cbn [client6].
+  destruct o as [d rapid na pd|d sid na pd|d na pd|d na pd|d addr|d|d|d|t]; cbn in Hs; cbn [client6].
   - destruct rapid; [eapply build_reply_spec; eauto|].
     destruct (advertise s d na pd) as [s1 r1] eqn:Ea. inv Hs. eapply advertise_spec; eauto.
   - destruct sid; [eapply build_reply_spec; eauto|]. inv Hs. apply (Hnone s' Hi); reflexivity.
@@ -227,6 +227,7 @@ Proof.
   - inv Hs. apply (Hnone s' Hi); reflexivity.
   - inv Hs. apply (Hnone _ (release6_inv c s d Hi)); reflexivity.
   - inv Hs. apply (Hnone _ (release6_inv c s d Hi)); reflexivity.
+  - inv Hs. apply (Hnone s' Hi); reflexivity.
   - inv Hs. apply Hnone; [|reflexivity|reflexivity]. destruct Hi. constructor; auto.
 Qed.
 
@@ -298,6 +299,36 @@ Proof.
   destruct (match l6_pfx l with Some _ => _ | None => _ end) as [pl pv]. cbn. split; [eauto|apply alookup_aremove_eq].
 Qed.
 
+
+(* (d) for delegated prefixes: Renew / Rebind of a held prefix returns the same prefix *)
+Lemma v6_d_pfx c ops d l p na :
+  wf6 c -> alookup d (leases6 (run6 c ops)) = Some l -> l6_pfx l = Some p ->
+  step6 c (run6 c ops) (Rebind d na true) = step6 c (run6 c ops) (Renew d na true) /\
+  exists s' rna mk, step6 c (run6 c ops) (Renew d na true) = (s', R6Reply rna (IaVal p) false, mk).
+Proof.
+  intros Hw Hl Hp. destruct (run6_inv c ops Hw) as [_ _ _ Lp _]. pose proof (Lp _ _ _ Hl Hp) as Hpl.
+  split; [reflexivity|]. cbn. unfold renew. rewrite Hl. unfold build_reply. cbn [aalloc aavail palloc pavail].
+  destruct na; [destruct (pool_alloc d (aalloc (run6 c ops)) (aavail (run6 c ops))) as [[[va al] av]|]|];
+  unfold pool_alloc; rewrite Hpl; eexists _, _, _; reflexivity.
+Qed.
+
+(* (f) release for delegated prefixes: the released prefix is back on the free list *)
+Lemma v6_f_release_pfx c ops d l p :
+  wf6 c -> alookup d (leases6 (run6 c ops)) = Some l -> l6_pfx l = Some p ->
+  In p (pavail (step6s c (run6 c ops) (Release6 d))) /\ alookup d (leases6 (step6s c (run6 c ops) (Release6 d))) = None.
+Proof.
+  intros Hw Hl Hp. destruct (run6_inv c ops Hw) as [_ Ip _ Lp _]. pose proof (Lp _ _ _ Hl Hp) as Hpl.
+  unfold step6s. cbn. unfold release6. rewrite Hl, Hp.
+  destruct (match l6_addr l with Some _ => _ | None => _ end) as [al av].
+  destruct (pool_release_key d (palloc (run6 c ops)) (pavail (run6 c ops))) as [pl pv] eqn:E.
+  destruct (prelease_inv _ _ _ _ _ _ Ip E) as (_ & _ & _ & Hin).
+  cbn. split; [eauto|apply alookup_aremove_eq].
+Qed.
+
+(* Information-Request never changes the binding state and carries no value *)
+Lemma v6_inforeq_stateless c s d : step6 c s (InfoReq d) = (s, R6Info, []).
+Proof. reflexivity. Qed.
+
 (* (f) expiry, partial: while no more than the valid lifetime has elapsed in total, no binding has run out *)
 Lemma v6_f_expiry_partial c ops pd :
   wf6 c -> now6 (run6 c ops) <= c_valid c -> expired_holder (run6 c ops) pd = false.
@@ -349,6 +380,6 @@ Qed.
 
 Example v6_hyps_satisfiable :
   wf6 w6 /\ (exists l, alookup 1 (leases6 (run6 w6 [Solicit 1 false true true; Request6 1 true true true; Advance6 50])) = Some l
-                       /\ l6_addr l = Some (a_base w6 + 1)) /\
+                       /\ l6_addr l = Some (a_base w6 + 1) /\ l6_pfx l = Some (p_base w6)) /\
   now6 (run6 w6 [Solicit 1 false true true; Request6 1 true true true; Advance6 50]) <= c_valid w6.
-Proof. split; [reflexivity|]. split; [eexists; split; vm_compute; reflexivity|vm_compute; discriminate]. Qed.
+Proof. split; [reflexivity|]. split; [eexists; split; [|split]; vm_compute; reflexivity|vm_compute; discriminate]. Qed.
